@@ -2,4 +2,6 @@ SPECIFICATION CSpec
 CONSTANTS
   Shapes = {"unary"}
   Points <- NoPoints
+  Vias = {"local"}
+  DetachBackend = FALSE
 CHECK_DEADLOCK FALSE
